@@ -559,12 +559,19 @@ impl<T: Encode + BitStore, O: BitOrder> Encode for BitVec<T, O> {
         plugin: &Plugin,
         session: &mut Session,
     ) -> io::Result<()> {
+        let _ = (plugin, session);
         encoder.emit_usize(self.len())?;
-        let underlying = self.as_raw_slice();
-        for item in underlying {
-            item.encode(encoder, plugin, session)?;
+        // Pack the bits themselves (bit `i` goes to bit `i % 8` of byte
+        // `i / 8`). The raw storage elements depend on the storage type, the
+        // bit order and the head offset of the vector, and their encoding is
+        // not what `decode` reads back.
+        let mut bytes = vec![0u8; self.len().div_ceil(8)];
+        for (i, bit) in self.iter().by_vals().enumerate() {
+            if bit {
+                bytes[i / 8] |= 1 << (i % 8);
+            }
         }
-        Ok(())
+        encoder.emit_raw_bytes(&bytes)
     }
 }
 
